@@ -8,6 +8,7 @@ import (
 	"io/fs"
 	"os"
 	"path/filepath"
+	"sort"
 	"strings"
 )
 
@@ -60,7 +61,15 @@ func (dv *defaultVerifierSimple) verifyRoot(root *Node) ([]string, []string, err
 
 			if err != nil {
 				if errors.Is(err, fs.ErrNotExist) {
-					// markdown上のrootが検査対象パスに無いとエラー
+					if path == root.path() {
+						// markdown上のrootが検査対象パスに無いとエラー: every path of this root is missing
+						noExistDirs := make([]string, 0, len(dirsMarkdown))
+						for dir := range dirsMarkdown {
+							noExistDirs = append(noExistDirs, dir)
+						}
+						sort.Strings(noExistDirs)
+						return verifyError{noExists: noExistDirs}
+					}
 					return verifyError{noExists: []string{dir}}
 				}
 				return err
